@@ -8,7 +8,7 @@ RULE = ("C08: every decision the real runtime asks of the (scripted) scheduler i
 
 
 def run(tier):
-    res = run_prog_check("C08", PROPS, tier, ["c08"], n_quick=5000, n_thorough=80000, rule=RULE, focus=["park", "condvar", "barrier", "mutex", "rwlock", "sem", "atomic", "chan"], focus_n=(2000, 40000))
+    res = run_prog_check("C08", PROPS, tier, ["c08"], n_quick=5000, n_thorough=80000, rule=RULE, focus=["park", "condvar", "barrier", "mutex", "rwlock", "sem", "atomic", "chan"], focus_n=(2000, 40000), exhaustive=["condvar", "park", "barrier", "chan", "sem", "acq", "mutex", "rwlock", "atomic"], exh_n=(30, 300))
     if isinstance(res, int):
         return res
     ctx, cases, mo, io = res
